@@ -37,10 +37,17 @@ impl From<koto_runtime::Error> for Error {
 
         // Runtime errors aren't Send+Sync when compiled without multi-threaded support,
         // so render the error message to a String.
-        match error.error {
+        match &error.error {
             // Preserve compilation errors so they can be inspected by
             // [`is_indentation_error`](Self::is_indentation_error).
-            RuntimeError::CompileError(error) => Self::from(error),
+            //
+            // The whole runtime error is rendered rather than only the loader error, so that a
+            // module that fails to compile while being imported is reported along with the import
+            // expression and its enclosing call sites. Without a trace the message is unchanged.
+            RuntimeError::CompileError(compile_error) => Self::CompileError {
+                error: error.to_string(),
+                is_indentation_error: compile_error.is_indentation_error(),
+            },
             _ => Self::StringError(error.to_string()),
         }
     }
